@@ -11,6 +11,7 @@ import (
 
 	"github.com/contiv/libOpenflow/common"
 	of "github.com/contiv/libOpenflow/openflow13"
+	"github.com/contiv/libOpenflow/protocol"
 	"github.com/contiv/libOpenflow/util"
 )
 
@@ -175,13 +176,22 @@ func runEnc(prop string, seed uint64, tier, dir string) error {
 	kindTotals := map[string]int{}
 	for i := 0; i < n; i++ {
 		g.kinds = map[string]int{}
+		var pktFirst []byte
 		var v util.Message
 		var term, kind string
 		which := rng.Intn(10)
 		if prop == "C01" {
 			which = 0
 		}
+		if prop == "C13" && rng.Intn(5) == 0 {
+			which = 99
+		}
 		switch {
+		case which == 99:
+			e, k := g.ethernet()
+			first, _ := e.MarshalBinary()
+			pktFirst = first
+			v, term, kind = e, "(EPkt "+bterm(first)+")", "packet:"+k
 		case which < 5:
 			m, t, k, xid := g.message(2)
 			v, term, kind = m, fmt.Sprintf("(EMsg %d %s)", xid, t), "msg:"+k
@@ -214,6 +224,10 @@ func runEnc(prop string, seed uint64, tier, dir string) error {
 		// children encodings are taken from a second, identical... no: from the same value,
 		// after the operations (sizing/encoding a child must not disturb it: C13)
 		res := runOps(v, ops)
+		if ep, ok := v.(*protocol.Ethernet); ok && ep != nil && pktFirst != nil {
+			res = append([]obsT{{isBytes: true, b: pktFirst}}, res...)
+			ops = append([]int{1}, ops...)
+		}
 		hs, kids, isCont := children(v)
 		kidTerms := []string{}
 		var kidHex []string
